@@ -233,7 +233,7 @@ class Z3Ctx:
             return self.term(atom[1]) == self.term(atom[2])
         if k == 'R':
             return self.cls(self.term(atom[1])) == self.cls(self.term(atom[2]))
-        if k in ('p', 'pe', 'ps', 'present', 'b'):
+        if k in ('p', 'pe', 'ps', 'present', 'present2', 'b'):
             return z3.Bool('%s_%s' % (k, '_'.join(str(x) for x in atom[1:])))
         raise rt.Unsupported('atom %r' % (atom,))
 
